@@ -23,7 +23,7 @@ type sink struct {
 	Name string
 	Body string // templ source of the component body; the hostile string is `s`
 	Mode int
-	Free string             // mStructure/mURL: attribute name whose value is owned by another property ("#text": raw-text content)
+	Free string              // mStructure/mURL: attribute name whose value is owned by another property ("#text": raw-text content)
 	Exp  func(string) string // mClass: reference class processing
 	// Nonce: the driver passes the string with templ.WithNonce(ctx, s) instead of as `s`.
 	Nonce bool
